@@ -1208,3 +1208,160 @@ def decode_metadata_table(repo, run, rule):
         run.violation(rule, fi, 'yaml._decode_metadata', '; '.join(bad[:2]))
     else:
         run.ok(rule, fi, '_decode_metadata evaluated on 7 inputs', 'merge-control fields become arguments, the rest is user metadata; nothing encoded -> {}')
+
+
+def error_wrapping(repo, run, rule):
+    """how failures become the errors the properties name (default configuration of the errors module):
+    rethrow_point re-raises an error of the stage's own class as it is and converts anything else into that class, carrying node,
+    path, second node, the text of the original exception and the exception itself as cause; the node-method decorators hand it
+    (self, path, other-if-it-is-a-node); api_entry re-creates the error with all its fields, keeps the original exception as cause and
+    only touches that exception when there is one; the entered-flag is set while the call runs and cleared afterwards"""
+    rp = repo.func('errors.rethrow_point')
+    ps = rp.params()
+    if len(ps) != 4:
+        raise AnalysisError('errors.rethrow_point: (error_type, self, path, other) signature not recognised')
+    et, me, pth, oth = ps
+    bad = []
+    seen = set()
+    for p in tr.paths_of(repo, rp, follow_exceptions=True):
+        exc = [t.split(':', 1)[1] for t, pol in p.facts if pol and t.startswith('exception:')]
+        if not exc:
+            continue
+        fin = tr.final_event(p)
+        if exc[0] == et:
+            seen.add('own')
+            if p.status != 'raise' or fin is None or fin.value.text != '<reraise>':
+                bad.append('an error of the stage\'s own class is not passed on unchanged (%s %s)' % (p.status, fin.value.text[:50] if fin is not None and fin.value is not None else ''))
+        elif exc[0] in ('Exception', 'BaseException'):
+            seen.add('other')
+            if p.status != 'raise' or fin is None or not isinstance(fin.value.ast, ast.Call) or norm(fin.value.ast.func) != et:
+                bad.append('an exception raised inside is not converted into the stage\'s error class (%s %s)' % (p.status, fin.value.text[:50] if fin is not None and fin.value is not None else ''))
+                continue
+            kw = {k.arg: norm(k.value) for k in fin.value.ast.keywords}
+            if kw.get('node') != me or kw.get('path') != pth or kw.get('extra_node') != oth:
+                bad.append('the converted error does not carry node / path / second node (%s)' % kw)
+            if kw.get('error_msg') != 'str(caught_exception)':
+                bad.append('the converted error does not carry the text of the original exception (error_msg=%s)' % kw.get('error_msg'))
+            if fin.target != 'caught_exception':
+                bad.append('the original exception is not the cause of the converted error (from %s)' % fin.target)
+    if seen != {'own', 'other'}:
+        raise AnalysisError('errors.rethrow_point: handlers for the own error class / any other exception not recognised (%s)' % sorted(seen))
+    if bad:
+        run.violation(rule, rp, 'errors.rethrow_point', '; '.join(sorted(set(bad))[:3]))
+    else:
+        run.ok(rule, rp, 'rethrow_point: own error class passes, anything else -> error_type(error_msg=str(e), node, path, extra_node) from e')
+    # the decorators built by node.decorator_factory
+    df = repo.func('node.decorator_factory')
+    impl = None
+    for a in df.nested().values():
+        for b in a.nested().values():
+            impl = b
+    if impl is None:
+        raise AnalysisError('node.decorator_factory: the wrapper function was not found')
+    bad = []
+    n = 0
+    for p in tr.paths_of(repo, impl, follow_exceptions=False):
+        if p.status != 'return':
+            continue
+        ent = [e for e in p.events if e.kind == 'with_enter' and isinstance(e.value.ast, ast.Call) and norm(e.value.ast.func).endswith('rethrow_point')]
+        if len(ent) != 1:
+            bad.append('the wrapped call does not run inside exactly one rethrow_point')
+            continue
+        n += 1
+        a = ent[0].value.ast.args
+        if len(a) != 4 or norm(a[0]) != 'error_type' or norm(a[1]) != 'args[0]':
+            bad.append('rethrow_point is not given (error_type, self, ...): %s' % norm(ent[0].value.ast)[:80])
+            continue
+        cand = [t[len('isinstance('):-len(', ConfigNode)')] for t, pol in p.facts if t.startswith('isinstance(') and t.endswith(', ConfigNode)')]
+        pol = [pol_ for t, pol_ in p.facts if t.startswith('isinstance(') and t.endswith(', ConfigNode)')]
+        if not cand:
+            bad.append('the third argument is handed on without being tested for being a node')
+        elif pol[0] and norm(a[3]) != cand[0]:
+            bad.append('a node given as the other operand is not handed on as the second node (%s)' % norm(a[3])[:40])
+        elif not pol[0] and not (isinstance(a[3], ast.Constant) and a[3].value is None):
+            bad.append('an operand that is not a node is handed on as the second node of the error (%s): building the error would fail on it' % norm(a[3])[:40])
+        calls = [e for e in p.events if e.kind == 'call' and e.callee == 'func']
+        if len(calls) != 1 or p.ret is None or p.ret.text != calls[0].result.text:
+            bad.append('the wrapped function is not called exactly once with its result returned')
+    if not n:
+        raise AnalysisError('node.decorator_factory: no completing path of the wrapper')
+    if bad:
+        run.violation(rule, impl, 'node.decorator_factory wrapper', '; '.join(sorted(set(bad))[:3]))
+    else:
+        run.ok(rule, impl, 'rethrow decorators: rethrow_point(error_type, self, path, other if it is a node else None) around func(*args, **kwargs) (%d paths)' % n)
+    # api_entry
+    api = repo.func('errors.api_entry').nested().get('impl')
+    if api is None:
+        raise AnalysisError('errors.api_entry: wrapper not found')
+    bad = []
+    n = 0
+    for p in tr.paths_of(repo, api, follow_exceptions=True):
+        entered = [pol for t, pol in p.facts if '_api_entered' in t]
+        if not entered or entered[0]:
+            continue
+        sets = [(i, e) for i, e in enumerate(p.events) if e.kind == 'store' and e.target.endswith('_api_entered.value')]
+        call = [i for i, e in enumerate(p.events) if e.kind == 'call' and e.callee == 'fn']
+        if not call:
+            continue
+        n += 1
+        before = [e.value.const for i, e in sets if i < call[0]]
+        after = [e.value.const for i, e in sets if i > call[0]]
+        if before[-1:] != [True] or after[-1:] != [False]:
+            bad.append('the entered-flag is %s while the call runs and %s afterwards (expected True / False)' % (before[-1:] or 'unset', after[-1:] or 'left set'))
+        if any(pol and t.startswith('exception:') for t, pol in p.facts):
+            fin = [e for e in p.events if e.kind == 'raise']
+            if p.status != 'raise' or not fin:
+                bad.append('an error raised by the call is swallowed')
+                continue
+            v = fin[-1].value.ast
+            kw = {k.arg: norm(k.value) for k in v.keywords} if isinstance(v, ast.Call) else {}
+            want = {k: 'caught_exception.' + k for k in ('error_msg', 'node', 'path', 'extra_node', 'note')}
+            if not isinstance(v, ast.Call) or norm(v.func) != 'type(caught_exception)' or kw != want:
+                bad.append('the error is not re-created from its own class and fields (%s)' % norm(v)[:80])
+            if fin[-1].target != 'caught_exception.__context__':
+                bad.append('the re-created error does not keep the original exception as its cause (from %s)' % fin[-1].target)
+            touch = [e for e in p.events if e.kind == 'store' and e.target.startswith('caught_exception.__context__.')]
+            none_ctx = any(t == 'caught_exception.__context__ is None' and pol for t, pol in p.facts)
+            if touch and none_ctx:
+                bad.append('the original exception is modified on a path where there is none (an AttributeError would replace the error)')
+    if not n:
+        raise AnalysisError('errors.api_entry: no path through the guarded call')
+    if bad:
+        run.violation(rule, api, 'errors.api_entry', '; '.join(sorted(set(bad))[:3]))
+    else:
+        run.ok(rule, api, 'api_entry: flag set / cleared around the call; errors re-created field by field from their own class, original exception kept as cause (%d paths)' % n)
+
+
+def namespace_assembly(repo, run, rule):
+    """NamespaceableMeta.__init__ on traces (the one piece of machinery the source model of this analysis mirrors): every collected
+    namespace is installed on the class under its name, and a member that was moved into a namespace is removed from the class
+    itself (otherwise every namespace member name would be a class attribute - and mapping keys of that name would be refused)"""
+    fi = repo.func('NamespaceableMeta.__init__')
+    cls = fi.params()[0]
+    installs, removals = [], []
+    for p in tr.paths_of(repo, fi, follow_exceptions=False):
+        for e in p.events:
+            if e.kind == 'call' and e.callee == 'setattr' and len(e.args) == 3 and e.args[0].text == cls:
+                installs.append((p, e))
+            if e.kind == 'call' and e.callee == 'delattr' and len(e.args) == 2 and e.args[0].text == cls:
+                removals.append((p, e))
+    if not installs:
+        run.violation(rule, fi, 'namespace installation', 'the collected namespaces are not installed on the class (setattr(cls, <namespace name>, ...))')
+        return
+    if not removals:
+        run.violation(rule, fi, 'removal of moved members', 'members moved into a namespace stay plain class attributes: their names are refused as mapping keys and shadow attribute-style access to children')
+        return
+    bad = set()
+    for p, e in removals:
+        x = e.args[1].text
+        facts = dict((t, pol) for t, pol in e.facts)
+        if facts.get('%s in %s.__dict__' % (x, cls)) is not True:
+            bad.add('a member is removed without being known to be in the class\'s own dictionary')
+        if facts.get("%s.startswith('__')" % x) is not False:
+            bad.add('special members (names starting with __) are not exempted from removal')
+        if facts.get('%s is None' % x) is True:
+            bad.add('the removal runs for the None entry (the namespace type)')
+    if bad:
+        run.violation(rule, fi, 'removal of moved members', '; '.join(sorted(bad)))
+    else:
+        run.ok(rule, fi, 'namespaces installed with setattr; moved members removed from the class (own, non-dunder names only)')
